@@ -1006,6 +1006,13 @@ def r5(ctx):
                     and g.name == hname:
                 continue  # override delegating to its base
             direct.append(f"{g.qual} ({ctx.w(g, call)})")
+        defs_ = [k.methods[hname] for k in repo.mro(ci) + repo.subclasses(ci, strict=True) if hname in k.methods]
+        valued = [(d_, r) for d_ in defs_ for r in walk(d_.node) if isinstance(r, ast.Return) and r.value is not None
+                  and not (isinstance(r.value, ast.Constant) and not r.value.value)]
+        ctx.ob("C14.R5", f"{ci.name}.{hname} (and its overrides) return nothing", not valued,
+               ctx.w(valued[0][0], valued[0][1]) if valued else ctx.w(init, c),
+               f"{valued[0][0].qual + ': ' + norm(valued[0][1]) if valued else ''}: Event.notify unsubscribes a handler whose "
+               f"call returns something truthy - the object handler silently stops receiving its messages")
         ctx.ob("C14.R5", f"{ci.name}.{hname} is invoked only by the dispatcher", not direct, ctx.w(init, c),
                f"called directly from {direct}: an exception would escape to that caller")
     # the dispatcher itself
@@ -1332,6 +1339,27 @@ def r8(ctx):
                f"no default row and no row for {missing}: decoding the State of such an object raises inside the "
                f"object-update handler")
     ctx.floor("C14.R8", "PCode dispatch tables", nt, 1)
+    # a PCode the enum has no name for is an ordinary wire value: converting it must not raise in the normalisers
+    om = repo.module(OBJ)
+    npc = 0
+    # objects.py and the repo modules it pulls its normalisers / readers from (code that moved out of it)
+    skip = ("templates", "serialization", "datatypes", "helpers", "llsd")
+    near = {om.rel} | {m_.rel for m_ in repo.modules.values()
+                       if any(t == m_.name or t.startswith(m_.name + ".") for t in om.imports.values())
+                       and m_.name.startswith("hippolyzer.lib.base.") and m_.name.split(".")[-1] not in skip
+                       and ".message" not in m_.name}
+    for f in [f for f in repo.all_funcs if f.module.rel in near]:
+        for c in calls(f.node):
+            if (ap(c.func) or "").split(".")[-1] == "PCode" and c.args and not isinstance(c.args[0], ast.Constant):
+                npc += 1
+                from ..core import try_contexts
+                ok = any(tc.section == "body" and any(
+                    h.type is None or any(n in ast.unparse(h.type) for n in ("ValueError", "Exception")) for h in tc.node.handlers)
+                    for tc in try_contexts(c, f.node))
+                ctx.ob("C14.R8", f"{f.qual}: {norm(c)} tolerates a PCode the enum does not name", ok, ctx.w(f, c),
+                       "enum conversion of the wire value outside a try that handles ValueError: an object of an unnamed "
+                       "kind makes the update handler raise (its sibling keeps such kinds as plain numbers)")
+    ctx.floor("C14.R8", "PCode conversions in objects.py", npc, 1)
 
 
 # --------------------------------------------------------------------------- R9
@@ -1434,6 +1462,18 @@ def r_audit(ctx):
                 for e, p in facts(r, rbh.node)) or any(
         (ap(x) or "").endswith(".is_alive") for g in walk(rbh.node) if isinstance(g, (ast.GeneratorExp, ast.ListComp))
         for gen in g.generators for i in gen.ifs for x in ast.walk(i))
+    def selects_alive(v):
+        """The returned value was selected by an expression that asks for is_alive (generator filter / predicate lambda)."""
+        o = origin(rbh.node, v) if v is not None else None
+        return o is not None and any((ap(x) or "").endswith(".is_alive") for x in ast.walk(o) if isinstance(x, ast.Attribute))
+    early = [r for r in walk(rbh.node) if isinstance(r, ast.Return) and r is not rbh.node.body[-1] and r.value is not None
+             and not (isinstance(r.value, ast.Constant) and r.value.value is None)]
+    stale = [r for r in early if not any(p_ and (ap(e) or "").endswith(".is_alive") for e, p_ in facts(r, rbh.node))
+             and not selects_alive(r.value)]
+    ctx.ob("C14.R8", "BaseClientSession.region_by_handle answers early only with a region it just saw alive", not stale,
+           ctx.w(rbh, stale[0]) if stale else rbh.where,
+           f"{norm(stale[0]) if stale else ''} hands back a region without asking whether it is alive at this lookup (a "
+           f"remembered answer outlives the region's circuit): after a region restart the dead predecessor is returned again")
     if not alive:
         # finder helper with a predicate: `self._find(lambda r: r.handle == h and r.is_alive)`; the finder must return
         # only elements its predicate accepted, the lambda body supplies the fact
